@@ -888,6 +888,205 @@ def direction_a_umap(ck, fut, tpool):
     ck.extra["fresh_processes_for_histories"] = len(maximal)
 
 
+# =============================================================================================== A8 embedded TrueType cmap
+TT_DEVS = ["F4RangeBase", "F4ZeroDelta", "F2SingleHigh", "F2OneHigh", "F2NoModulo", "BadFormatAsserts"]
+
+
+def tt_font_of(cs):
+    """the model's case as a real (minimal) TrueType file"""
+    from ..realise import ttf
+    k = cs["kind"]
+    if k == "f4":
+        return ttf.font_file([(b"cmap", ttf.cmap_table([(3, 1, ttf.write_format4(cs["segs"], cs["gia"]))]))])
+    if k == "f0":
+        return ttf.font_file([(b"cmap", ttf.cmap_table([(0, 3, ttf.write_format0({int(c): g for c, g in cs["table"].items()}))]))])
+    if k == "f2":
+        return ttf.font_file([(b"cmap", ttf.cmap_table([(0, 3, ttf.write_format2({hb: ix for hb, ix in cs["keys"]}, cs["subs"],
+                                                                                  cs["gia"]))]))])
+    if not cs["hascmap"]:
+        return ttf.font_file([(b"head", b"\0" * 54), (b"maxp", b"\0" * 32)])
+    subs = []
+    for r in cs["subs"]:
+        pairs = sorted(tuple(x) for x in r["pairs"])
+        if r["fmt"] == 4:
+            segs = [{"sc": c, "ec": c, "idd": g - c, "idr": 0} for c, g in pairs] + [{"sc": 65535, "ec": 65535, "idd": 1, "idr": 0}]
+            data = ttf.write_format4(segs, [])
+        elif r["fmt"] == 0:
+            data = ttf.write_format0(dict(pairs))
+        elif r["fmt"] == 6:
+            lo = pairs[0][0]
+            data = ttf.write_format6(lo, [dict(pairs).get(c, 0) for c in range(lo, pairs[-1][0] + 1)])
+        else:
+            data = ttf.write_format12([(c, c, g) for c, g in pairs])
+        subs.append((r["p"], r["e"], data))
+    return ttf.font_file([(b"cmap", ttf.cmap_table(subs)), (b"head", b"\0" * 54)])
+
+
+def tt_matches(result, real_name, real_map):
+    """does what the real reader did fit a model result {err, pairs}?  The inverse map may pick any character of a glyph;
+    glyph 0 (.notdef) is not constrained."""
+    if result["err"] != "none":
+        return real_name == result["err"]
+    if real_name != "ok":
+        return False
+    by = {}
+    for c, g in result["pairs"]:
+        by.setdefault(g, set()).add(c)
+    got = {g: ch for g, ch in real_map.items() if g != 0}
+    return set(got) == set(by) and all(got[g] in by[g] for g in got)
+
+
+def tt_worker(batch):
+    from ..observe import ttrec
+    from ..realise import fontpdf as fp
+    from ..realise import ttf
+    out = []
+    for r in batch:
+        cs = r["cs"]
+        font = tt_font_of(cs)
+        # the two independent readings of the layout (TLA+ reference, Python reader) must agree on what the file says
+        ref = ttf.ref_unicode_pairs(font)
+        want = {c: g for c, g in r["i"]["pairs"]}
+        if (ref or {}) != want:
+            raise MachineryError("TrueType realiser/reference disagreement on %r: reader %r, model %r" % (cs, ref, want))
+        name, _calls, rmap = ttrec.real_unicode_map(font)
+        f = []
+        case = {"kind": "ttcmap", "rec": r}
+        if not tt_matches(r["i"], name, rmap):
+            if tt_matches(r["c"], name, rmap) and r["f"]:
+                for d in r["f"]:
+                    f.append(("dev:" + d, "create_unicode_map on a %s cmap (%s): %s %r, the OpenType reading is %r"
+                              % (cs["kind"], cs.get("style"), name, rmap, sorted(want.items())), case))
+            else:
+                f.append(("ttcmap:%s" % cs["kind"], "create_unicode_map on a %s cmap (%s): %s %r, expected glyph->char from %r"
+                          % (cs["kind"], cs.get("style"), name, rmap, sorted(want.items())), case))
+        # through a document: CIDFontType2 + Identity-H + Adobe-Identity, CID = glyph index
+        gids = sorted({g for _c, g in r["i"]["pairs"] + r["c"]["pairs"] if 0 < g < 65536} | {1, 2, 3})
+        fnt, objs = type0_font("Identity-H", ordering="Identity", fontfile2=font)
+        pdf = lines_doc(fnt, objs, [b"".join(g.to_bytes(2, "big") for g in gids)])
+
+        def texts_ok(res, texts):
+            by = {}
+            for c, g in res["pairs"]:
+                by.setdefault(g, set()).add(chr(c))
+            return len(texts) == len(gids) and all((t in by[g]) if g in by else t == "(cid:%d)" % g for g, t in zip(gids, texts))
+        try:
+            texts = [g[0] for g in fp.chars_of(pdf)[0]]
+            okd = r["i"]["err"] in ("none", "CMapNotFound") and texts_ok(r["i"], texts)
+            if not okd:
+                if r["c"]["err"] in ("none", "CMapNotFound") and texts_ok(r["c"], texts) and r["f"]:
+                    for d in r["f"]:
+                        f.append(("dev:" + d, "Identity-H font with an embedded %s cmap: CIDs %s report %r; OpenType reading %r"
+                                  % (cs["kind"], gids, texts, sorted(want.items())), case))
+                else:
+                    f.append(("ttcmap-document:%s" % cs["kind"], "Identity-H font with an embedded %s cmap (%s): CIDs %s report %r; "
+                              "OpenType reading %r" % (cs["kind"], cs.get("style"), gids, texts, sorted(want.items())), case))
+        except AssertionError as e:
+            if r["c"]["err"] == "AssertionError" and r["f"]:
+                for d in r["f"]:
+                    f.append(("dev:" + d, "a font whose cmap has a Unicode subtable of an unsupported format aborts the page with "
+                              "AssertionError %s" % (e,), case))
+            else:
+                f.append(("ttcmap-document:AssertionError", "document raised AssertionError %s" % (e,), case))
+        except Exception as e:  # noqa: BLE001
+            f.append(("ttcmap-document:%s" % type(e).__name__, "document raised %r" % (e,), case))
+        out.append(f)
+    return out
+
+
+def direction_a_ttcmap(ck, fut, ppool):
+    from ..realise import ttf
+    ttf.self_check()
+    res, emit = fut
+    ck.add_tlc(res, "TrueTypeCMap: encoded maps (format 4 in 5 styles, format 0, format 2) and subtable directories")
+    if not res.ok:
+        return model_violation(ck, res, "TrueTypeCMap")
+    if res.actions:
+        require_coverage(res, ["ASegDelta", "ASegRange", "AByteTable", "ASubHeader", "ASkipPlatform", "AReadSubtable",
+                               "ASkipFormat", "AFinish"])
+    recs = [json.loads(line) for line in open(emit)]
+    os.remove(emit)
+    if len(recs) != res.emitted or not recs:
+        raise MachineryError("TrueTypeCMap: emitted %d, read %d" % (res.emitted, len(recs)))
+    for r in recs:
+        for key in ("i", "c"):
+            r[key]["pairs"] = sorted([int(c), int(g)] for c, g in r[key]["pairs"])
+    chunks = [recs[i:i + 40] for i in range(0, len(recs), 40)]
+    k = 0
+    hits = {}
+    for chunk, results in zip(chunks, ppool.map(tt_worker, chunks)):
+        for r, findings in zip(chunk, results):
+            k += 1
+            for key, what, case in findings:
+                if key.startswith("dev:"):
+                    hits[key] = hits.get(key, 0) + 1
+                report(ck, key, what, case)
+            ck.case(2, ("TT", json.dumps(r["cs"], sort_keys=True)) if len(r["i"]["pairs"]) > 1 else None)
+            if k % 300 == 11 and len(ck.samples) < 8:
+                cs = r["cs"]
+                ck.sample({"truetype_cmap_case": {x: cs[x] for x in cs if x in ("kind", "style", "segs", "gia", "subs", "keys")},
+                           "model_char_glyph_pairs": r["i"]["pairs"], "findings": sorted({f[0] for f in findings})})
+    ck.replayed += len(recs)
+    ck.extra["truetype_cmaps_realised"] = len(recs)
+    ck.extra["truetype_deviation_hits"] = hits
+
+
+def tt_traces_of(path):
+    from ..observe import ttrec
+    out = []
+    for origin, data in ttrec.embedded_programs(path):
+        tr = ttrec.truetype_trace(os.path.relpath(origin, "/repo"), data)
+        if tr is not None:
+            out.append(tr)
+    return out
+
+
+def direction_b_ttcmap(ck, dev, ppool):
+    files = sorted(glob.glob("/repo/samples/**/*.pdf", recursive=True))
+    files = [f for f in files if os.path.getsize(f) < (6 << 20 if ck.tier == "quick" else 80 << 20)]
+    traces = []
+    for res in ppool.map(tt_traces_of, files):
+        traces.extend(res)
+    if not traces:
+        raise MachineryError("no embedded TrueType programs found in the samples")
+    traces.sort(key=lambda t: (-len(t["obs"]), t["origin"]))
+    if ck.tier == "quick":
+        traces = [t for t in traces if t["nchars"] < 3000][:40]
+    spec = os.path.join(FONT, "TrueTypeCMapTrace.tla")
+    cfg = write_cfg(os.path.join(ck.tmp, "tttrace.cfg"), constants={"Dev": tla_set([d for d in dev if d.startswith("F4") or d == "BadFormatAsserts"])},
+                    spec="Spec", invariants=["IndexOK"], deadlock=True)
+    tf = os.path.join(ck.tmp, "tttrace.json")
+    todo = list(traces)
+    rejected = 0
+    while todo:
+        with open(tf, "w") as f:
+            json.dump([{k: v for k, v in t.items() if k not in ("origin", "nchars")} for t in todo], f)
+        res = run_tlc(spec, cfg, workers=1, env={"TRACE_FILE": tf}, timeout=3000, heap="6g")
+        ck.add_tlc(res, "trace validation of %d embedded TrueType programs of the samples" % len(todo))
+        if res.ok:
+            break
+        if res.violated != "deadlock" or not res.error_trace:
+            raise MachineryError("TrueType trace validation failed unexpectedly: " + res.error_text[:2000])
+        st = res.error_trace[-1][1]
+        t, k, ph = int(st["t"]), int(st["k"]), st["ph"].strip('"')
+        tr = todo[t - 1]
+        rejected += 1
+        what = {"font": "outcome %s does not fit the subtables %s" % (tr["result"], [(s["p"], s["e"], s["fmt"]) for s in tr["subs"]]),
+                "obs": "character/glyph result %s is not what the cmap says" % (tr["obs"][k] if k < len(tr["obs"]) else "?"),
+                "inv": "returned map entry %s is not among the character/glyph results" % (tr["inv"][k] if k < len(tr["inv"]) else "?")}[ph]
+        report(ck, "tt-trace-rejected:" + ph, "embedded TrueType program %s: %s" % (tr["origin"], what),
+               {"kind": "trace", "origin": tr["origin"], "phase": ph, "index": k})
+        todo = todo[t:]
+        if rejected >= 3 and todo:
+            rejected += len(todo)
+            break
+    for tr in traces:
+        ck.case(len(tr["obs"]) + len(tr["inv"]) + 1, ("TB", tr["origin"]) if tr["obs"] else None)
+    ck.traces += len(traces) - rejected
+    ck.extra["sample_truetype_programs_traced"] = len(traces)
+    ck.extra["sample_truetype_programs_with_unicode_cmap"] = sum(1 for t in traces if t["result"] == "ok")
+
+
 # =============================================================================================== B traces
 def cid_traces_of(path):
     from ..observe import cidrec
@@ -1070,6 +1269,10 @@ def run(ck):
     add("sel", "MC_CIDSelect.tla", cfg_with(ck, "MC_CIDSelect.cfg", "sel.cfg", replace={"Dev <- AllDev": "Dev " + dsel}))
     add("use", "MC_UseCMap.tla", cfg_with(ck, "MC_UseCMap.cfg", "use.cfg"))
     add("umap", "MC_UMapCache.tla", cfg_with(ck, "MC_UMapCache.cfg", "umap.cfg"))
+    ttdev = [d for d in active("ttf") if d in TT_DEVS]
+    ck.extra["deviations_modelled_as_coded"] = dev + ttdev
+    add("tt", "MC_TrueTypeCMap.tla", cfg_with(ck, "MC_TrueTypeCMap_small.cfg" if quick else "MC_TrueTypeCMap.cfg", "tt.cfg",
+                                             replace={"Dev <- NoDev": "Dev = " + tla_set(ttdev)}))
     with ThreadPoolExecutor(8) as tpool, ProcessPoolExecutor(min(16, os.cpu_count() or 4), initializer=quiet) as ppool:
         futs = {k: tpool.submit(tlc_job, j) for k, j in jobs.items()}
 
@@ -1084,7 +1287,9 @@ def run(ck):
         direction_a_selection(ck, got("sel"), ppool)
         direction_a_usecmap(ck, got("use"))
         direction_a_umap(ck, got("umap"), tpool)
+        direction_a_ttcmap(ck, got("tt"), ppool)
         direction_b(ck, ppool)
+        direction_b_ttcmap(ck, ttdev, ppool)
     codec_data_check(ck)
     ck.exhaustive = True
 
@@ -1109,6 +1314,11 @@ def replay(path):
         arr = py_array(case["array"])
         print(arr, "->", get_widths(arr) if case["mode"] == "W" else get_widths2(arr))
         bad = True
+    elif kind == "ttcmap":
+        fnd = tt_worker([case["rec"]])[0]
+        for f in fnd:
+            print(f[0], f[1])
+        bad = bool(fnd)
     elif kind == "umap":
         fnd = umap_history_run(case["history"])
         for f in fnd:
